@@ -16,11 +16,11 @@ CFG = dict(
     technique='Coq proof over an executable model of the optimizer + per-run translation validation: structural model-vs-real optimizer output, bag denotation vs real execution, property oracle on real outputs',
     bin='c05', n_quick=170, n_thorough=3000,
     corr_name='Model/Opt.v optimize vs Optimizer::optimize (tree equality) and Model/IR.v den vs CodeGenerator::execute',
-    rule='corpus (pushdown to the right join input x2, always-false branch in front of a Union under a join x2, union of two joins under the join planner) then per seed: 3/4 random well-typed IR trees '
+    rule='corpus (pushdown to the right join input x2, multi-key joins with non-ascending / repeated right keys under Map and Filter(Map) + builder programs p(A,B),q(B,A,C), always-false branch in front of a Union under a join x2, union of two joins under the join planner) then per seed: 3/4 random well-typed IR trees '
          '(depth <= 5, all 12 node kinds, every Predicate constructor incl. And/Or/ColumnCompareArith/ArithCompareConst with out-of-range and ill-typed columns, Compute expressions, '
-         'aggregates count/count_distinct/sum/min/max; 1/8 with Filter(False)/Union[] allowed; 1/8 with repeated right join keys; 1/16 malformed: an index broken) through Optimizer::optimize '
+         'aggregates count/count_distinct/sum/min/max; 1/8 with Filter(False)/Union[] allowed; 1/8 with repeated right join keys; joins with up to 3 key pairs in arbitrary (ascending / descending / repeated) order, frequently directly under a Map/FlatMap that projects right non-key columns; 1/16 malformed: an index broken) through Optimizer::optimize '
          '(1/5 also through BooleanSpecializer), 1/4 rule text (1-2 clauses, 1-3 atoms + constants, wildcards, comparisons, negation, aggregate heads) through the real parser + IRBuilder and then '
-         'through optimize / plan_joins / specialize / all three; every tree executed before and after on a random typed database (6 relations, 0-8 tuples). '
+         'through optimize / plan_joins / specialize / all three; every tree executed before and after on a random typed database (8 relations incl. two all-Int ones of width 3 and 4, 0-8 tuples). '
          'Non-trivial = the pass changed the tree and the answer is non-empty; distinct by pass + tree + database.',
     trusted_base=['Model/IR.v den: hand-written denotation of the 12 IRNode kinds, validated against CodeGenerator::execute on every case (input tree and optimized tree incl. FlatMap/JoinFlatMap)',
                   'Model/Opt.v: hand-written model of Optimizer::optimize, validated by structural equality with the real optimizer output on every case',
